@@ -94,6 +94,10 @@ func GetKeyFromPassword(passwd string, cname types.PrincipalName, realm string, 
 			if err != nil {
 				return key, et, fmt.Errorf("error unmashaling PA Data to PA-ETYPE-INFO2: %v", err)
 			}
+			if len(eti) < 1 {
+				// An empty sequence carries no hint
+				continue
+			}
 			if etypeID != eti[0].EType {
 				et, err = GetEtype(eti[0].EType)
 				if err != nil {
@@ -110,6 +114,10 @@ func GetKeyFromPassword(passwd string, cname types.PrincipalName, realm string, 
 			err := et2.Unmarshal(pa.PADataValue)
 			if err != nil {
 				return key, et, fmt.Errorf("error unmashalling PA Data to PA-ETYPE-INFO2: %v", err)
+			}
+			if len(et2) < 1 {
+				// An empty sequence carries no hint
+				continue
 			}
 			if etypeID != et2[0].EType {
 				et, err = GetEtype(et2[0].EType)
